@@ -270,6 +270,9 @@ class Delegations:
         for k, v in json_dict.items():
             if ABCPropertyGraphConstants.FIELD_POOL_ID in v.keys():
                 # single element pool or pool definition
+                if ABCPropertyGraphConstants.FIELD_CAPACITIES in v.keys() and \
+                        ABCPropertyGraphConstants.FIELD_LABELS in v.keys():
+                    raise DelegationException(msg=f'Delegation {k} mixes capacities and labels')
                 if v[ABCPropertyGraphConstants.FIELD_POOL_ID] == ABCPropertyGraphConstants.SINGLE_POOL_NAME:
                     format = DelegationFormat.SinglePool
                     pool_id = None
